@@ -589,7 +589,10 @@ def queryRetrieval (env : Env) (fuel : Nat) (qi : Nat) (query : List QueryPart) 
         | .value v => pure [QR.literal v]
         | .func n ps => resolveFunction env fuel n ps
       let lhs : List QR := ks.map fun (p, k) => QR.resolved (PV.str p k)
-      let results ← realBinaryOperation env lhs rhs op opNot none
+      -- the key comparisons are recorded under a `Filter` record (they select entries, they are not checks
+      -- of the enclosing clause); its status aggregates them like a body
+      let results ← withRec (fun rs => RecKind.filter (bodyStatus (rs.map (·.2))))
+        (realBinaryOperation env lhs rhs op opNot none)
       let selected ← results.filterMapM fun (q, s) =>
         match q, s with
         | .resolved key, .pass =>
